@@ -222,7 +222,7 @@ class Baton:
 
     def seam_point(self, what):
         if self.cur is not None and threading.current_thread() is self.cur.thread:
-            if self.p_glob and what.startswith("global:") and self.rng.random() < self.p_glob:
+            if self.p_glob and what.startswith(("global:", "fs:")) and self.rng.random() < self.p_glob:
                 # process-global state outside the repository was just saved / replaced / restored (e.g. the warnings
                 # machinery): the window before the next use is where non-nested save/restore pairs of two clients bite
                 self._next_switch = self.points + 1
